@@ -6,6 +6,7 @@ package main
 import (
 	"flag"
 	"fmt"
+	"net/netip"
 	"os"
 	"runtime/pprof"
 	"strings"
@@ -44,6 +45,12 @@ func main() {
 			honest(w, t, 4, *maxJ, st)
 		case "line":
 			line(w, st)
+		case "tamper":
+			tamper(w, t, *maxJ, st)
+		case "fault":
+			fault(w, t, st)
+		case "alert":
+			alert(w, t, st)
 		default:
 			vt.Fatal("unknown mode %q", *mode)
 		}
@@ -198,3 +205,238 @@ func line(w *vt.Writer, st *stats) {
 		}
 	}
 }
+
+// tamper: C04 binding.  Every path of the topology (or a sample), every single-bit alteration of a
+// protected value (stride 1) or a seeded sample of the bits.
+func tamper(w *vt.Writer, t *dp.Topo, maxJ int, st *stats) {
+	rng := vt.Rand(int64(len(t.Name)) + int64(t.Name[1]) + 500)
+	c := dp.NewControl(t, rng, 4)
+	c.Beacon()
+	n := dp.NewNet(c, dp.NetOpts{})
+	w.Emit(map[string]any{"ev": "topo", "t": t.JSON()})
+	stride := 1
+	if !vt.Thorough() {
+		stride = 5
+		if t.Name != "T1" {
+			stride = 16
+		}
+	}
+	k := 0
+	for src := range t.ASes {
+		for dst := range t.ASes {
+			if src == dst {
+				continue
+			}
+			ups, cores, downs := c.SegsFor(src, dst)
+			for _, p := range combinator.Combine(t.ASes[src].IA, t.ASes[dst].IA, ups, cores, downs, true) {
+				if maxJ > 0 && k >= maxJ {
+					return
+				}
+				k++
+				st.journeys++
+				n.Tamper(w, st.journeys, src, dst, p, rng, stride)
+			}
+		}
+	}
+}
+
+type pathRec struct {
+	src, dst int
+	p        combinator.Path
+}
+
+func allPaths(t *dp.Topo, c *dp.Control) []pathRec {
+	var out []pathRec
+	for src := range t.ASes {
+		for dst := range t.ASes {
+			if src == dst {
+				continue
+			}
+			ups, cores, downs := c.SegsFor(src, dst)
+			for _, p := range combinator.Combine(t.ASes[src].IA, t.ASes[dst].IA, ups, cores, downs, false) {
+				out = append(out, pathRec{src, dst, p})
+			}
+		}
+	}
+	return out
+}
+
+func sameIfs(a, b combinator.Path) bool {
+	x, y := a.Metadata.Interfaces, b.Metadata.Interfaces
+	if len(x) != len(y) {
+		return false
+	}
+	for i := range x {
+		if x[i] != y[i] {
+			return false
+		}
+	}
+	return true
+}
+
+// hopOffset returns the byte offset of hop field j in raw.
+func hopOffset(raw []byte, j int) int {
+	p := dp.Parse(raw)
+	return p.MetaOff + 4 + 8*p.Dec.NumINF + 12*j
+}
+
+// fault: C10 binding, SCMP errors.  Every path x every AS position x fault kind: egress interface
+// down (BFD), sibling link down, egress interface not configured, the AS's hop fields expired,
+// a later hop field with an invalid MAC.  The answer of the real slow path is walked back.
+func fault(w *vt.Writer, t *dp.Topo, st *stats) {
+	rng := vt.Rand(int64(len(t.Name)) + int64(t.Name[1]) + 900)
+	c := dp.NewControl(t, rng, 4)
+	c.Beacon()
+	base := dp.NewNet(c, dp.NetOpts{})
+	w.Emit(map[string]any{"ev": "topo", "t": t.JSON()})
+	paths := allPaths(t, c)
+	nets := map[string]*dp.Net{}
+	netFor := func(kind string, as int, ifid uint16) *dp.Net {
+		key := fmt.Sprintf("%s/%d/%d", kind, as, ifid)
+		if n, ok := nets[key]; ok {
+			return n
+		}
+		var n *dp.Net
+		switch kind {
+		case "ifdown":
+			n = base.WithAS(as, dp.NetOpts{BFD: map[[2]int]bool{{as, int(ifid)}: true}})
+		case "noif":
+			n = base.WithAS(as, dp.NetOpts{Without: map[[2]int]bool{{as, int(ifid)}: true}})
+		case "sibdown":
+			n = base.WithAS(as, dp.NetOpts{SiblingBFD: map[int]bool{as: true}})
+		case "expired":
+			c2 := dp.NewControl(t, vt.Rand(int64(len(t.Name))+int64(t.Name[1])+900), 4)
+			c2.ExpOf[as] = 0
+			c2.Beacon()
+			n = base.WithControl(c2)
+		}
+		nets[key] = n
+		return n
+	}
+	stride := 1
+	if !vt.Thorough() {
+		stride = 4
+		if t.Name == "T1" {
+			stride = 2
+		}
+	}
+	k := 0
+	run := func(n *dp.Net, pr pathRec, desc map[string]any, mut func([]byte) []byte) {
+		k++
+		if k%stride != 0 {
+			return
+		}
+		st.journeys++
+		n.Run(w, pr.src, pr.dst, pr.p, dp.JourneyOpts{ID: st.journeys, Mode: "fault", PT: "scion",
+			L4: "udp", HBH: k%3 == 0, E2E: k%5 == 0, Rev: "none", Rng: rng, Desc: desc, Mutate: mut})
+	}
+	for _, pr := range paths {
+		ifs := pr.p.Metadata.Interfaces
+		for x := 0; x < len(ifs); x += 2 { // egress interfaces
+			as := t.ASByIA(ifs[x].IA)
+			ifid := uint16(ifs[x].ID)
+			d := func(kind string) map[string]any {
+				return map[string]any{"kind": kind, "pos": x / 2, "bit": 0, "side": "",
+					"as": t.ASes[as].Name, "if": int(ifid)}
+			}
+			run(netFor("ifdown", as, ifid), pr, d("ifdown"), nil)
+			run(netFor("noif", as, ifid), pr, d("noif"), nil)
+			if t.ASes[as].Routers > 1 {
+				run(netFor("sibdown", as, 0), pr, d("sibdown"), nil)
+			}
+		}
+		// expired hop fields of one AS on the path
+		seen := map[int]bool{}
+		for x := range ifs {
+			as := t.ASByIA(ifs[x].IA)
+			if seen[as] {
+				continue
+			}
+			seen[as] = true
+			n := netFor("expired", as, 0)
+			ups, cores, downs := n.C.SegsFor(pr.src, pr.dst)
+			for _, q := range combinator.Combine(t.ASes[pr.src].IA, t.ASes[pr.dst].IA, ups, cores,
+				downs, false) {
+				if sameIfs(q, pr.p) {
+					run(n, pathRec{pr.src, pr.dst, q}, map[string]any{"kind": "expired", "pos": 0,
+						"bit": 0, "side": "", "as": t.ASes[as].Name, "if": 0}, nil)
+					break
+				}
+			}
+		}
+		// a later hop field with an invalid MAC
+		nh := dp.Parse(mustRaw(pr)).Dec.NumHops
+		for j := 1; j < nh; j++ {
+			jj := j
+			bit := rng.Intn(48)
+			run(base, pr, map[string]any{"kind": "badmac", "pos": jj, "bit": bit, "side": "",
+				"as": "", "if": 0}, func(raw []byte) []byte {
+				raw[hopOffset(raw, jj)+6+bit/8] ^= 0x80 >> (bit % 8)
+				return raw
+			})
+		}
+	}
+}
+
+func mustRaw(pr pathRec) []byte {
+	// only the path header matters here
+	raw, err := dp.Build(dp.PktSpec{Path: pr.p.SCIONPath, L4: "udp", SrcHost: netipAddr("10.0.0.1"),
+		DstHost: netipAddr("10.0.0.2"), Rng: vt.Rand(1)})
+	if err != nil {
+		vt.Fatal("build: %v", err)
+	}
+	return raw
+}
+
+// alert: C10 binding, traceroute.  Every path x every on-path interface: an SCMP traceroute
+// request whose hop field carries the router-alert flag of that interface.
+func alert(w *vt.Writer, t *dp.Topo, st *stats) {
+	rng := vt.Rand(int64(len(t.Name)) + int64(t.Name[1]) + 1300)
+	c := dp.NewControl(t, rng, 4)
+	c.Beacon()
+	n := dp.NewNet(c, dp.NetOpts{})
+	w.Emit(map[string]any{"ev": "topo", "t": t.JSON()})
+	stride := 1
+	if !vt.Thorough() {
+		stride = 3
+	}
+	k := 0
+	for _, pr := range allPaths(t, c) {
+		d := dp.Parse(mustRaw(pr)).Dec
+		for _, pi := range pr.p.Metadata.Interfaces {
+			ifid := uint16(pi.ID)
+			// the hop field(s) that name the interface
+			for j, h := range d.HopFields {
+				side := ""
+				if h.ConsIngress == ifid {
+					side = "in"
+				} else if h.ConsEgress == ifid {
+					side = "eg"
+				}
+				if side == "" {
+					continue
+				}
+				k++
+				if k%stride != 0 {
+					continue
+				}
+				jj, sd := j, side
+				st.journeys++
+				n.Run(w, pr.src, pr.dst, pr.p, dp.JourneyOpts{ID: st.journeys, Mode: "alert",
+					PT: "scion", L4: "trreq", HBH: k%4 == 0, Rev: "none", Rng: rng,
+					Desc: map[string]any{"kind": "alert", "pos": jj, "bit": 0, "side": sd,
+						"as": n.T.ASes[n.T.ASByIA(pi.IA)].Name, "if": int(ifid)},
+					Mutate: func(raw []byte) []byte {
+						bit := byte(1) // ConsEgress router alert
+						if sd == "in" {
+							bit = 2 // ConsIngress router alert
+						}
+						raw[hopOffset(raw, jj)] |= bit
+						return raw
+					}})
+			}
+		}
+	}
+}
+
+func netipAddr(s string) netip.Addr { return netip.MustParseAddr(s) }
